@@ -74,6 +74,13 @@ func call(overrideFN *string, namespace types.EnvType, fIn types.MalType, args .
 	if minArgs < 0 || maxArgs < 0 {
 		panic(fmt.Errorf("%s: argument count bounds cannot be negative", functionFullName))
 	}
+	if contextRequired && (len(args) == 1 || len(args) == 2) {
+		// declared bounds count lisp arguments; the injected context is one more Go argument
+		minArgs++
+		if maxArgs != unlimitedArgments {
+			maxArgs++
+		}
+	}
 
 	var extCall func(context.Context, []types.MalType) (types.MalType, error)
 	switch finType.NumOut() {
